@@ -5,15 +5,30 @@
    Two connections of one node.  Threads, split exactly where the harness can
    hold the real code through public interfaces (DESIGN 4.0):
 
-   reader   connect command: HandleCommand -> connectCmd.  Parked inside the
-            OnConnecting handler ("oc"); after authenticated := TRUE and
-            addClient, inside Broker.Subscribe of a connect-time server-side
-            subscription ("ss"); after the connect reply inside the OnConnect
-            handler, i.e. inside triggerConnect with connectMu held and the
-            status still "connecting" ("cn"); then status := connected and
-            scheduleOnConnectTimers ("up").
+   reader   connect command: HandleCommand -> connectCmd (or Client.Connect of a
+            unidirectional transport: the same connectCmd / triggerConnect /
+            scheduleOnConnectTimers sequence).  Parked inside the OnConnecting
+            handler ("oc"); after authenticated := TRUE inside Node.addClient
+            BEFORE the hub registration ("ac": Transport.AcceptProtocol, called
+            by addClient when Config.Metrics.ExposeTransportAcceptProtocol is
+            set; c.mu is held there, so a close() of the connection blocks);
+            after hub.add and the shutdown check inside Broker.Subscribe of a
+            connect-time server-side subscription ("ss"); after the connect
+            reply inside the OnConnect handler, i.e. inside triggerConnect with
+            connectMu held and the status still "connecting" ("cn"); the
+            handler returns and status := connected ("tm"); then
+            scheduleOnConnectTimers arms the presence or the expiry timer
+            ("up").  Timer arming is its own step (ConnArm): no timer of the
+            connection is armed before its OnConnect callback returned, so no
+            alive / refresh / sub-refresh callback (all timer driven) can start
+            before that ("connect-ret" in the callback log).
    tick     the presence timer: updatePresence takes presenceMu, checks the
-            status, re-arms, and is parked inside the OnAlive handler ("al").
+            status, re-arms, and is parked inside the OnAlive handler ("al")
+            (a sub-refresh callback is delivered by the same tick after OnAlive).
+   expiry   a connection with expiring credentials and server-side refresh
+            (expv) arms the expiry timer first; when it fires the refresh handler
+            runs ("refresh"), its answer moves the deadline behind the presence
+            tick, which is armed next (TimerExpire).
    closers  Client.Disconnect, the transport's close function, Node.Shutdown
             (one per connection of the hub snapshot).  close() takes connectMu
             for its whole duration (blocked while a reader is in "cn"), flips
@@ -30,21 +45,27 @@
    only enabled ones - replay configurations; FALSE explores every delay.
 
    Guard = TRUE models the connect handshake refusing a connection once the
-   shutdown flag is set (checked right after addClient): the statement of C08.
-   The code has no such check (DESIGN section 10 item 8): replay on the real
-   code diverges exactly there and the monitor decides.                      *)
+   shutdown flag is set, checked right AFTER the hub registration (ConnReg):
+   Shutdown sets the flag and then snapshots the hub, so a connection is either
+   in the snapshot or sees the flag - the statement of C08.  Guard = FALSE is a
+   handshake without (or with a misplaced) check: its counterexamples are the
+   witness schedules (shutdown before OnConnecting returned; shutdown between
+   authentication and hub registration: Wit3); replay on the real code diverges
+   exactly there and the monitor decides.                                    *)
 EXTENDS Naturals, Sequences, FiniteSets, TLC
 
-CONSTANTS Conns, MaxEnv, Urgent, Guard, SS, Pushes
+CONSTANTS Conns, MaxEnv, Urgent, Guard, SS, Pushes,
+          Exp      \* connections that may come with expiring credentials (server-side refresh)
 
 Shutdown == 3001   ForceNoRec == 3503   ConnClosed == 3000   BadRequest == 3501
 
 VARIABLES
   st,      \* "absent" | "connecting" | "connected" | "closed"
   auth, hub,
-  rd,      \* reader: "idle" | "oc" | "ss" | "cn" | "up" | "done"
+  rd,      \* reader: "idle" | "oc" | "ac" | "ss" | "cn" | "tm" | "up" | "done"
   tk,      \* presence tick: "idle" | "al"
-  armed,   \* presence timer armed
+  tmr,     \* the connection's armed timer (after the handshake): "none" | "presence" | "expire"
+  expv,    \* the connection has expiring credentials
   sub,     \* "none" | "live"
   spawned, \* closers not yet running: sequence of codes
   cl,      \* the closer that owns the close: "none" | "tc" | "pm" | "done"
@@ -52,19 +73,21 @@ VARIABLES
   prev,    \* status it replaced
   shc,     \* shutdown's closer for the connection: "none" | "spawned" | "done"
   shut,    \* "no" | "begun" | "done"
+  win,     \* shutdown began while the reader was between authentication and hub registration
   cbdone,  \* length of cb[c] when shutdown completed
   pushed,  \* pushes the environment sent to the connection (C11)
   nenv,
   out, cb, step
 
-vars == <<st, auth, hub, rd, tk, armed, sub, spawned, cl, who, prev, shc, shut, cbdone, pushed, nenv, out, cb, step>>
+vars == <<st, auth, hub, rd, tk, tmr, expv, sub, spawned, cl, who, prev, shc, shut, win, cbdone, pushed, nenv, out, cb, step>>
 
 F(t, c) == [t |-> t, code |-> c]
 Upd(f, c, v) == [f EXCEPT ![c] = v]
 
 Init ==
   /\ st = [c \in Conns |-> "absent"] /\ auth = [c \in Conns |-> FALSE] /\ hub = [c \in Conns |-> FALSE]
-  /\ rd = [c \in Conns |-> "idle"] /\ tk = [c \in Conns |-> "idle"] /\ armed = [c \in Conns |-> FALSE]
+  /\ rd = [c \in Conns |-> "idle"] /\ tk = [c \in Conns |-> "idle"] /\ tmr = [c \in Conns |-> "none"]
+  /\ expv = [c \in Conns |-> FALSE] /\ win = [c \in Conns |-> FALSE]
   /\ sub = [c \in Conns |-> "none"] /\ spawned = [c \in Conns |-> <<>>]
   /\ cl = [c \in Conns |-> "none"] /\ who = [c \in Conns |-> 0] /\ prev = [c \in Conns |-> "absent"]
   /\ shc = [c \in Conns |-> "none"] /\ shut = "no" /\ cbdone = [c \in Conns |-> 0]
@@ -72,11 +95,14 @@ Init ==
   /\ out = [c \in Conns |-> <<>>] /\ cb = [c \in Conns |-> <<>>]
   /\ step = [act |-> "Init"]
 
-ConnectMuFree(c)  == rd[c] # "cn" /\ cl[c] \notin {"tc", "pm"}
+\* close() takes connectMu (held by the reader inside triggerConnect) and then c.mu (held by connectCmd across
+\* Node.addClient, i.e. while the reader is parked in "ac")
+ConnectMuFree(c)  == rd[c] \notin {"ac", "cn"} /\ cl[c] \notin {"tc", "pm"}
 \* Several close() calls blocked on connectMu behind a reader are woken in no particular order. Replay
 \* configurations keep at most one of them waiting there (behind another close() the order does not matter:
-\* all later ones find the connection closed).
-MaySpawn(c) == Urgent => (rd[c] = "cn" => spawned[c] = <<>>)
+\* all later ones find the connection closed).  A close() blocked on c.mu behind a reader in "ac" races with the
+\* rest of connectCmd once the lock is dropped (no gate there): replay configurations do not start one.
+MaySpawn(c) == Urgent => ((rd[c] = "cn" => spawned[c] = <<>>) /\ rd[c] # "ac")
 PresenceMuFree(c) == tk[c] # "al"
 Env == nenv < MaxEnv /\ nenv' = nenv + 1
 
@@ -91,8 +117,10 @@ CloseCallbacks(c, k) ==
 NewConn(c) ==
   /\ st[c] = "absent"
   /\ st' = Upd(st, c, "connecting")
-  /\ step' = [act |-> "NewConn", c |-> c]
-  /\ UNCHANGED <<auth, hub, rd, tk, armed, sub, spawned, cl, who, prev, shc, shut, cbdone, pushed, nenv, out, cb>>
+  /\ \E e \in (IF c \in Exp THEN BOOLEAN ELSE {FALSE}) :
+       /\ expv' = Upd(expv, c, e)
+       /\ step' = [act |-> "NewConn", c |-> c, exp |-> e]
+  /\ UNCHANGED <<auth, hub, rd, tk, tmr, sub, spawned, cl, who, prev, shc, shut, win, cbdone, pushed, nenv, out, cb>>
 
 (* ---- reader: the connect command ---- *)
 ConnBegin(c) ==
@@ -101,7 +129,7 @@ ConnBegin(c) ==
   /\ IF st[c] = "closed"
        THEN rd' = Upd(rd, c, "done") /\ UNCHANGED cb
        ELSE rd' = Upd(rd, c, "oc") /\ cb' = Upd(cb, c, Append(cb[c], "connecting"))
-  /\ UNCHANGED <<st, auth, hub, tk, armed, sub, spawned, cl, who, prev, shc, shut, cbdone, pushed, nenv, out>>
+  /\ UNCHANGED <<st, auth, hub, tk, tmr, expv, sub, spawned, cl, who, prev, shc, shut, win, cbdone, pushed, nenv, out>>
 
 \* the connect reply, then triggerConnect up to the OnConnect handler
 ReplyAndTrigger(c, o, k) ==
@@ -113,21 +141,28 @@ ReplyAndTrigger(c, o, k) ==
          /\ cb' = Upd(k, c, Append(k[c], "connect"))
          /\ rd' = Upd(rd, c, "cn")
 
+\* OnConnecting returned: c.mu, status check, authenticated := TRUE, into Node.addClient up to Transport.AcceptProtocol
 ConnAuth(c) ==
   /\ rd[c] = "oc"
   /\ step' = [act |-> "ConnAuth", c |-> c]
   /\ IF st[c] = "closed"
-       THEN /\ rd' = Upd(rd, c, "done")
-            /\ UNCHANGED <<auth, hub, spawned, sub, out, cb>>
-       ELSE /\ auth' = Upd(auth, c, TRUE) /\ hub' = Upd(hub, c, TRUE)
-            /\ IF Guard /\ shut # "no"
-                 THEN \* the node is shutting down: disconnect(shutdown) instead of a reply
-                      /\ spawned' = Upd(spawned, c, Append(spawned[c], Shutdown))
-                      /\ rd' = Upd(rd, c, "done") /\ UNCHANGED <<sub, out, cb>>
-                 ELSE IF SS /\ c = 1
-                 THEN rd' = Upd(rd, c, "ss") /\ UNCHANGED <<spawned, sub, out, cb>>
-                 ELSE ReplyAndTrigger(c, out, cb) /\ UNCHANGED spawned
-  /\ UNCHANGED <<st, tk, armed, cl, who, prev, shc, shut, cbdone, pushed, nenv>>
+       THEN rd' = Upd(rd, c, "done") /\ UNCHANGED auth
+       ELSE rd' = Upd(rd, c, "ac") /\ auth' = Upd(auth, c, TRUE)
+  /\ UNCHANGED <<st, hub, tk, tmr, expv, sub, spawned, cl, who, prev, shc, shut, win, cbdone, pushed, nenv, out, cb>>
+
+\* hub.add, THEN the shutdown check, the reservations, c.mu released; on to the connect-time subscription / the reply
+ConnReg(c) ==
+  /\ rd[c] = "ac"
+  /\ step' = [act |-> "ConnReg", c |-> c]
+  /\ hub' = Upd(hub, c, TRUE)
+  /\ IF Guard /\ shut # "no"
+       THEN \* the node is shutting down: disconnect(shutdown) instead of a reply
+            /\ spawned' = Upd(spawned, c, Append(spawned[c], Shutdown))
+            /\ rd' = Upd(rd, c, "done") /\ UNCHANGED <<sub, out, cb>>
+       ELSE IF SS /\ c = 1
+       THEN rd' = Upd(rd, c, "ss") /\ UNCHANGED <<spawned, sub, out, cb>>
+       ELSE ReplyAndTrigger(c, out, cb) /\ UNCHANGED spawned
+  /\ UNCHANGED <<st, auth, tk, tmr, expv, cl, who, prev, shc, shut, win, cbdone, pushed, nenv>>
 
 ConnReply(c) ==
   /\ rd[c] = "ss"
@@ -138,14 +173,24 @@ ConnReply(c) ==
             /\ cb' = CloseCallbacks(c, cb) /\ cl' = Upd(cl, c, "done")
             /\ shc' = IF who[c] = Shutdown /\ shc[c] = "spawned" THEN Upd(shc, c, "done") ELSE shc
        ELSE ReplyAndTrigger(c, out, cb) /\ UNCHANGED <<cl, shc>>
-  /\ UNCHANGED <<st, auth, hub, tk, armed, spawned, who, prev, shut, cbdone, pushed, nenv>>
+  /\ UNCHANGED <<st, auth, hub, tk, tmr, expv, spawned, who, prev, shut, win, cbdone, pushed, nenv>>
 
+\* the OnConnect handler returns; triggerConnect flips the status and drops connectMu
 ConnDone(c) ==
   /\ rd[c] = "cn"
-  /\ rd' = Upd(rd, c, "up")
-  /\ st' = Upd(st, c, "connected") /\ armed' = Upd(armed, c, TRUE)
+  /\ rd' = Upd(rd, c, "tm")
+  /\ st' = Upd(st, c, "connected")
+  /\ cb' = Upd(cb, c, Append(cb[c], "connect-ret"))
   /\ step' = [act |-> "ConnDone", c |-> c]
-  /\ UNCHANGED <<auth, hub, tk, sub, spawned, cl, who, prev, shc, shut, cbdone, pushed, nenv, out, cb>>
+  /\ UNCHANGED <<auth, hub, tk, tmr, expv, sub, spawned, cl, who, prev, shc, shut, win, cbdone, pushed, nenv, out>>
+
+\* scheduleOnConnectTimers: the earliest of presence / expiry is armed (nothing when a close() got in between)
+ConnArm(c) ==
+  /\ rd[c] = "tm"
+  /\ rd' = Upd(rd, c, "up")
+  /\ tmr' = IF st[c] = "closed" THEN tmr ELSE Upd(tmr, c, IF expv[c] THEN "expire" ELSE "presence")
+  /\ step' = [act |-> "ConnArm", c |-> c]
+  /\ UNCHANGED <<st, auth, hub, tk, expv, sub, spawned, cl, who, prev, shc, shut, win, cbdone, pushed, nenv, out, cb>>
 
 (* ---- commands of a connected client ---- *)
 Subscribe(c) ==
@@ -154,7 +199,7 @@ Subscribe(c) ==
   /\ out' = Upd(out, c, Append(out[c], F("subscribe", 0)))
   /\ cb' = Upd(cb, c, Append(cb[c], "subscribe"))
   /\ step' = [act |-> "Subscribe", c |-> c]
-  /\ UNCHANGED <<st, auth, hub, rd, tk, armed, spawned, cl, who, prev, shc, shut, cbdone, pushed>>
+  /\ UNCHANGED <<st, auth, hub, rd, tk, tmr, expv, spawned, cl, who, prev, shc, shut, win, cbdone, pushed>>
 
 Unsubscribe(c) ==
   /\ ~Pushes /\ Env /\ rd[c] = "up" /\ st[c] = "connected" /\ sub[c] = "live" /\ spawned[c] = <<>>
@@ -162,22 +207,22 @@ Unsubscribe(c) ==
   /\ out' = Upd(out, c, Append(out[c], F("unsubscribe", 0)))
   /\ cb' = Upd(cb, c, Append(cb[c], "unsubscribe"))
   /\ step' = [act |-> "Unsubscribe", c |-> c]
-  /\ UNCHANGED <<st, auth, hub, rd, tk, armed, spawned, cl, who, prev, shc, shut, cbdone, pushed>>
+  /\ UNCHANGED <<st, auth, hub, rd, tk, tmr, expv, spawned, cl, who, prev, shc, shut, win, cbdone, pushed>>
 
 \* a second connect command on an authenticated connection: bad request, no callback
 DupConnect(c) ==
   /\ Env /\ rd[c] = "up" /\ st[c] = "connected" /\ MaySpawn(c)
   /\ spawned' = Upd(spawned, c, Append(spawned[c], BadRequest))
   /\ step' = [act |-> "DupConnect", c |-> c]
-  /\ UNCHANGED <<st, auth, hub, rd, tk, armed, sub, cl, who, prev, shc, shut, cbdone, pushed, out, cb>>
+  /\ UNCHANGED <<st, auth, hub, rd, tk, tmr, expv, sub, cl, who, prev, shc, shut, win, cbdone, pushed, out, cb>>
 
 (* ---- presence tick ---- *)
 TickBegin(c) ==
-  /\ Env /\ armed[c] /\ tk[c] = "idle" /\ st[c] = "connected"
+  /\ Env /\ tmr[c] = "presence" /\ tk[c] = "idle" /\ st[c] = "connected"
   /\ tk' = Upd(tk, c, "al")
   /\ cb' = Upd(cb, c, Append(cb[c], "alive"))
   /\ step' = [act |-> "TickBegin", c |-> c]
-  /\ UNCHANGED <<st, auth, hub, rd, armed, sub, spawned, cl, who, prev, shc, shut, cbdone, pushed, out>>
+  /\ UNCHANGED <<st, auth, hub, rd, tmr, expv, sub, spawned, cl, who, prev, shc, shut, win, cbdone, pushed, out>>
 
 \* close() runs its callbacks once it has presenceMu (no tick inside OnAlive) and its unsubscribe loop does not
 \* have to wait for the connect-time server-side subscription that is still in flight (reader parked in "ss")
@@ -190,20 +235,28 @@ TickEnd(c) ==
             /\ cb' = CloseCallbacks(c, cb) /\ sub' = Upd(sub, c, "none") /\ cl' = Upd(cl, c, "done")
             /\ shc' = IF who[c] = Shutdown /\ shc[c] = "spawned" THEN Upd(shc, c, "done") ELSE shc
        ELSE UNCHANGED <<cb, sub, cl, shc>>
-  /\ UNCHANGED <<st, auth, hub, rd, armed, spawned, who, prev, shut, cbdone, pushed, nenv, out>>
+  /\ UNCHANGED <<st, auth, hub, rd, tmr, expv, spawned, who, prev, shut, win, cbdone, pushed, nenv, out>>
+
+(* ---- expiry timer: the refresh handler runs and answers with a deadline behind the presence tick ---- *)
+TimerExpire(c) ==
+  /\ Env /\ tmr[c] = "expire" /\ st[c] = "connected"
+  /\ tmr' = Upd(tmr, c, "presence")
+  /\ cb' = Upd(cb, c, Append(cb[c], "refresh"))
+  /\ step' = [act |-> "TimerExpire", c |-> c]
+  /\ UNCHANGED <<st, auth, hub, rd, tk, expv, sub, spawned, cl, who, prev, shc, shut, win, cbdone, pushed, out>>
 
 (* ---- closers ---- *)
 Disconnect(c) ==
   /\ Env /\ st[c] \notin {"absent"} /\ MaySpawn(c)
   /\ spawned' = Upd(spawned, c, Append(spawned[c], ForceNoRec))
   /\ step' = [act |-> "Disconnect", c |-> c]
-  /\ UNCHANGED <<st, auth, hub, rd, tk, armed, sub, cl, who, prev, shc, shut, cbdone, pushed, out, cb>>
+  /\ UNCHANGED <<st, auth, hub, rd, tk, tmr, expv, sub, cl, who, prev, shc, shut, win, cbdone, pushed, out, cb>>
 
 TransportClose(c) ==
   /\ Env /\ st[c] \notin {"absent"} /\ MaySpawn(c)
   /\ spawned' = Upd(spawned, c, Append(spawned[c], ConnClosed))
   /\ step' = [act |-> "TransportClose", c |-> c]
-  /\ UNCHANGED <<st, auth, hub, rd, tk, armed, sub, cl, who, prev, shc, shut, cbdone, pushed, out, cb>>
+  /\ UNCHANGED <<st, auth, hub, rd, tk, tmr, expv, sub, cl, who, prev, shc, shut, win, cbdone, pushed, out, cb>>
 
 CloseStartEnabled(c) == spawned[c] # <<>> /\ ConnectMuFree(c)
 
@@ -216,12 +269,12 @@ CloseStart(c) ==
      /\ IF st[c] = "closed"
           THEN \* somebody closed it already: returns at once
                /\ shc' = IF code = Shutdown /\ shc[c] = "spawned" THEN Upd(shc, c, "done") ELSE shc
-               /\ UNCHANGED <<st, hub, armed, cl, who, prev>>
+               /\ UNCHANGED <<st, hub, tmr, cl, who, prev>>
           ELSE /\ prev' = Upd(prev, c, st[c]) /\ st' = Upd(st, c, "closed")
-               /\ armed' = Upd(armed, c, FALSE) /\ hub' = Upd(hub, c, FALSE)
+               /\ tmr' = Upd(tmr, c, "none") /\ hub' = Upd(hub, c, FALSE)
                /\ cl' = Upd(cl, c, "tc") /\ who' = Upd(who, c, code)
                /\ UNCHANGED shc
-  /\ UNCHANGED <<auth, rd, tk, sub, shut, cbdone, pushed, nenv, out, cb>>
+  /\ UNCHANGED <<auth, rd, tk, expv, sub, shut, win, cbdone, pushed, nenv, out, cb>>
 
 \* Transport.Close happens; then presenceMu, the unsubscribe loop and the disconnect callback
 CloseXmit(c) ==
@@ -232,7 +285,7 @@ CloseXmit(c) ==
        THEN /\ cb' = CloseCallbacks(c, cb) /\ sub' = Upd(sub, c, "none") /\ cl' = Upd(cl, c, "done")
             /\ shc' = IF who[c] = Shutdown /\ shc[c] = "spawned" THEN Upd(shc, c, "done") ELSE shc
        ELSE cl' = Upd(cl, c, "pm") /\ UNCHANGED <<cb, sub, shc>>
-  /\ UNCHANGED <<st, auth, hub, rd, tk, armed, spawned, who, prev, shut, cbdone, pushed, nenv>>
+  /\ UNCHANGED <<st, auth, hub, rd, tk, tmr, expv, spawned, who, prev, shut, win, cbdone, pushed, nenv>>
 
 (* ---- node shutdown ---- *)
 ShutBegin ==
@@ -240,35 +293,49 @@ ShutBegin ==
   /\ shut' = "begun"
   /\ spawned' = [c \in Conns |-> IF hub[c] THEN Append(spawned[c], Shutdown) ELSE spawned[c]]
   /\ shc' = [c \in Conns |-> IF hub[c] THEN "spawned" ELSE "none"]
+  /\ win' = [c \in Conns |-> rd[c] = "ac"]
   /\ step' = [act |-> "ShutBegin"]
-  /\ UNCHANGED <<st, auth, hub, rd, tk, armed, sub, cl, who, prev, cbdone, pushed, nenv, out, cb>>
+  /\ UNCHANGED <<st, auth, hub, rd, tk, tmr, expv, sub, cl, who, prev, cbdone, pushed, nenv, out, cb>>
 
 ShutDone ==
   /\ shut = "begun" /\ \A c \in Conns : shc[c] # "spawned"
   /\ shut' = "done"
   /\ cbdone' = [c \in Conns |-> Len(cb[c])]
   /\ step' = [act |-> "ShutDone"]
-  /\ UNCHANGED <<st, auth, hub, rd, tk, armed, sub, spawned, cl, who, prev, shc, pushed, nenv, out, cb>>
+  /\ UNCHANGED <<st, auth, hub, rd, tk, tmr, expv, sub, spawned, cl, who, prev, shc, win, pushed, nenv, out, cb>>
 
 (* ---- C11: something is sent to the connection while its connect command is still under way ----
-   kind "send": Client.Send on the client found through Hub().Connections(); kind "pub": a publication without
-   history on the channel of the connect-time server-side subscription (its hub entry exists from the moment the
-   reader is inside Broker.Subscribe).  The intended behaviour: nothing overtakes the connect reply. *)
-Push(c, kind) ==
+   kind "send": Client.Send on the client found through Hub().Connections();
+   kind "pub":  a publication without history (no offset) on channel "a", the connect-time server-side subscription
+                whose Broker.Subscribe is the gate (its hub entry exists from the moment the reader is inside it);
+   kind "hpub": a publication WITH history (it carries an offset) on one of the connect-time server-side
+                subscriptions of the connection: "a" (not positioned, reader parked inside its Broker.Subscribe), "b"
+                (not positioned, its subscribe finished: it is in the hub and only reserved in the client until the
+                connect reply is out), "p" (positioned: buffered by the publication/subscribe synchronisation).
+   The intended behaviour: nothing overtakes the connect reply. *)
+PushChans == {"a", "b", "p"}
+Push(c, kind, ch) ==
   /\ Pushes /\ Env /\ hub[c] /\ st[c] # "closed"
-  /\ kind = "pub" => (SS /\ c = 1 /\ (rd[c] = "ss" \/ sub[c] = "live"))
+  /\ kind = "send" => ch = "-"
+  /\ kind = "pub" => ch = "a"
+  /\ kind = "hpub" => ch \in PushChans
+  /\ kind # "send" => (SS /\ c = 1 /\ (rd[c] = "ss" \/ sub[c] = "live"))
   /\ pushed' = Upd(pushed, c, pushed[c] + 1)
-  /\ out' = IF rd[c] \in {"cn", "up"} THEN Upd(out, c, Append(out[c], F("push", pushed[c] + 1))) ELSE out
-  /\ step' = [act |-> "Push", c |-> c, kind |-> kind, n |-> pushed[c] + 1, window |-> rd[c] \notin {"cn", "up"}]
-  /\ UNCHANGED <<st, auth, hub, rd, tk, armed, sub, spawned, cl, who, prev, shc, shut, cbdone, cb>>
+  /\ out' = IF rd[c] \in {"cn", "tm", "up"} THEN Upd(out, c, Append(out[c], F("push", pushed[c] + 1))) ELSE out
+  /\ step' = [act |-> "Push", c |-> c, kind |-> kind, ch |-> ch, n |-> pushed[c] + 1, window |-> rd[c] \notin {"cn", "tm", "up"}]
+  /\ UNCHANGED <<st, auth, hub, rd, tk, tmr, expv, sub, spawned, cl, who, prev, shc, shut, win, cbdone, cb>>
+
+AnyPush(c) == Push(c, "send", "-") \/ Push(c, "pub", "a") \/ \E ch \in PushChans : Push(c, "hpub", ch)
 
 Next ==
   IF Urgent /\ \E c \in Conns : CloseStartEnabled(c)
     THEN \E c \in Conns : CloseStart(c)
-    ELSE \/ \E c \in Conns : NewConn(c) \/ ConnBegin(c) \/ ConnAuth(c) \/ ConnReply(c) \/ ConnDone(c)
-                             \/ Subscribe(c) \/ Unsubscribe(c) \/ DupConnect(c) \/ TickBegin(c) \/ TickEnd(c)
+  ELSE IF Urgent /\ \E c \in Conns : rd[c] = "tm"
+    THEN \E c \in Conns : ConnArm(c)
+    ELSE \/ \E c \in Conns : NewConn(c) \/ ConnBegin(c) \/ ConnAuth(c) \/ ConnReg(c) \/ ConnReply(c) \/ ConnDone(c) \/ ConnArm(c)
+                             \/ Subscribe(c) \/ Unsubscribe(c) \/ DupConnect(c) \/ TickBegin(c) \/ TickEnd(c) \/ TimerExpire(c)
                              \/ Disconnect(c) \/ TransportClose(c) \/ CloseStart(c) \/ CloseXmit(c)
-                             \/ Push(c, "send") \/ Push(c, "pub")
+                             \/ AnyPush(c)
          \/ ShutBegin \/ ShutDone
 
 Spec == Init /\ [][Next]_vars
@@ -276,7 +343,9 @@ Spec == Init /\ [][Next]_vars
 ---------------------------------------------------------------------------
 (* C08: observable-only monitors over the callback log of each connection (and the moment shutdown completed) *)
 Idx(s, x) == {i \in 1..Len(s) : s[i] = x}
-Enabled8 == {"alive", "subscribe", "unsubscribe", "disconnect"}
+Enabled8 == {"alive", "refresh", "subscribe", "unsubscribe", "disconnect"}
+\* callbacks driven by the connection's timers (the sub-refresh callback is part of the tick that delivers "alive")
+Timed8 == {"alive", "refresh"}
 
 C08_Order ==
   \A c \in Conns :
@@ -285,8 +354,13 @@ C08_Order ==
     /\ Cardinality(Idx(k, "disconnect")) <= 1
     \* the connect callback precedes every callback it enables
     /\ \A i \in 1..Len(k) : k[i] \in Enabled8 => \E j \in 1..(i - 1) : k[j] = "connect"
+    \* no alive / refresh / sub-refresh callback starts before the connect callback returned
+    /\ \A i \in 1..Len(k) : k[i] \in Timed8 => \E j \in 1..(i - 1) : k[j] = "connect-ret"
     \* nothing of the connection's life after the disconnect callback
-    /\ \A i \in Idx(k, "disconnect") : \A j \in (i + 1)..Len(k) : k[j] \notin {"alive", "connect", "disconnect"}
+    /\ \A i \in Idx(k, "disconnect") : \A j \in (i + 1)..Len(k) : k[j] \notin {"alive", "refresh", "connect", "connect-ret", "disconnect"}
+
+\* the same as a statement about the timers: none is armed before the OnConnect callback returned
+C08_NoEarlyTimer == \A c \in Conns : tmr[c] # "none" => rd[c] = "up"
 
 \* one unsubscribe callback per established subscription that ended
 Established(c) == Cardinality({i \in 1..Len(out[c]) : out[c][i].t = "subscribe"})
@@ -305,17 +379,26 @@ C08_Shutdown ==
       /\ st[c] # "connected" /\ (hub[c] => spawned[c] # <<>>)
       /\ \A i \in (cbdone[c] + 1)..Len(cb[c]) : cb[c][i] # "connect"
 
-C08 == C08_Order /\ C08_Unsub /\ C08_Shutdown
+C08 == C08_Order /\ C08_NoEarlyTimer /\ C08_Unsub /\ C08_Shutdown
 
 \* C11: the first frame of a connection is the connect reply
 C11_First == \A c \in Conns : out[c] # <<>> => out[c][1].t \in {"connect", "disc"}
 
 \* witness predicates (negated scenarios: TLC's counterexample is the schedule replayed on every run)
-Wit1 == ~(shut = "done" /\ \E c \in Conns : st[c] = "connected" /\ rd[c] = "up")
-Wit2 == ~(shut = "done" /\ \E c \in Conns : rd[c] = "up" /\ \E i \in (cbdone[c] + 1)..Len(cb[c]) : cb[c][i] = "connect")
+\* Node.Shutdown begins while the connect command is still inside OnConnecting (or earlier) ...
+Wit1 == ~(shut = "done" /\ \E c \in Conns : ~win[c] /\ st[c] = "connected" /\ rd[c] = "up")
+Wit2 == ~(shut = "done" /\ \E c \in Conns : ~win[c] /\ rd[c] = "up" /\ \E i \in (cbdone[c] + 1)..Len(cb[c]) : cb[c][i] = "connect")
+\* ... or while the connect command is between its authentication step and the hub registration: the connection is
+\* neither in Shutdown's hub snapshot nor (with a shutdown check placed before the registration) refused; it
+\* completes its handshake while Shutdown runs (Wit3) / after Shutdown returned (Wit4)
+Wit3 == ~(shut = "done" /\ \E c \in Conns : win[c] /\ st[c] = "connected" /\ rd[c] = "up" /\ \E i \in 1..cbdone[c] : cb[c][i] = "connect")
+Wit4 == ~(shut = "done" /\ \E c \in Conns : win[c] /\ rd[c] = "up" /\ \E i \in (cbdone[c] + 1)..Len(cb[c]) : cb[c][i] = "connect")
 WitPushSend == ~(step.act = "Push" /\ step.kind = "send" /\ step.window)
 WitPushPub  == ~(step.act = "Push" /\ step.kind = "pub" /\ step.window)
+WitPushHpubA == ~(step.act = "Push" /\ step.kind = "hpub" /\ step.ch = "a" /\ step.window)
+WitPushHpubB == ~(step.act = "Push" /\ step.kind = "hpub" /\ step.ch = "b" /\ step.window)
+WitPushHpubP == ~(step.act = "Push" /\ step.kind = "hpub" /\ step.ch = "p" /\ step.window)
 
 TypeOK == nenv <= MaxEnv
-View == <<st, auth, hub, rd, tk, armed, sub, spawned, cl, who, prev, shc, shut, cbdone, pushed, nenv, out, cb>>
+View == <<st, auth, hub, rd, tk, tmr, expv, sub, spawned, cl, who, prev, shc, shut, win, cbdone, pushed, nenv, out, cb>>
 =============================================================================
